@@ -12,13 +12,14 @@ cp $WT/seeded_out/meta.json $OUT/meta.agent.json
 export CARGO_TARGET_DIR=$WT/target CARGO_NET_OFFLINE=true
 cd $WT
 LOG=$OUT/confirm.log; : > $LOG
-# the worktree has the change applied; make sure it is exactly patch.diff on top of HEAD (plus untracked demo files)
-git stash -q -- $(git diff --name-only) 2>>$LOG
+# the worktree has the change applied; make sure it is exactly patch.diff on top of HEAD (plus untracked demo files).
+# No `git stash` here: the stash is shared between all worktrees of a repository, and concurrent use swaps changes
+# between them (it happened in round 4).
+git checkout -q -- . 2>>$LOG
 git apply --check $OUT/patch.diff >>$LOG 2>&1 || { echo "patch does not apply to HEAD" | tee -a $LOG; }
 echo "== demo WITHOUT change" >>$LOG
 ( eval "timeout 1800 $DEMO" ) >>$LOG 2>&1; W0=$?
 git apply $OUT/patch.diff
-git stash drop -q 2>/dev/null
 echo "== demo WITH change" >>$LOG
 ( eval "timeout 1800 $DEMO" ) >>$LOG 2>&1; W1=$?
 echo "== test-suite WITH change" >>$LOG
